@@ -351,14 +351,21 @@ package keeper
 //@   ensures stable(h0, v0, h0, v0)
 //@   trigger stable(h0, v0, h0, v0)
 
+// number of account-closed / payment-closed hook invocations (C05: the other modules are told about every
+// account and payment that stops being open)
+//@ ghost AcctHookCalls: int
+//@ ghost PayHookCalls: int
+
 // hooks registered by the market module (assumed here; proved for the registered values under C05):
 // they never rewrite a non-open escrow record and they conserve escrowed funds
 //@ extern keeper.(AccountHook).functype(ctx, obj)
-//@   modifies ghost KVhas, ghost KVval, ghost G, ghost Mod, ghost Bank, ghost It_all
+//@   modifies ghost KVhas, ghost KVval, ghost G, ghost Mod, ghost Bank, ghost It_all, ghost AcctHookCalls, ghost PayHookCalls
+//@   ensures AcctHookCalls == old(AcctHookCalls) + 1 && PayHookCalls == old(PayHookCalls)
 //@   ensures stable(old(KVhas)[escrowSKey()], old(KVval)[escrowSKey()], KVhas[escrowSKey()], KVval[escrowSKey()])
 //@   ensures forall d: str :: Mod["escrow"][d] - G[escrowSKey()][d] == old(Mod)["escrow"][d] - old(G)[escrowSKey()][d]
 //@ extern keeper.(PaymentHook).functype(ctx, obj)
-//@   modifies ghost KVhas, ghost KVval, ghost G, ghost Mod, ghost Bank, ghost It_all
+//@   modifies ghost KVhas, ghost KVval, ghost G, ghost Mod, ghost Bank, ghost It_all, ghost AcctHookCalls, ghost PayHookCalls
+//@   ensures PayHookCalls == old(PayHookCalls) + 1 && AcctHookCalls == old(AcctHookCalls)
 //@   ensures stable(old(KVhas)[escrowSKey()], old(KVval)[escrowSKey()], KVhas[escrowSKey()], KVval[escrowSKey()])
 //@   ensures forall d: str :: Mod["escrow"][d] - G[escrowSKey()][d] == old(Mod)["escrow"][d] - old(G)[escrowSKey()][d]
 
@@ -371,7 +378,7 @@ package keeper
 //@   requires k.skey == escrowSKey()
 //@   requires wfAcct(KVhas[k.skey], KVval[k.skey], id)
 //@   requires KVhas[k.skey][aKey(id)] ==> acctOf(KVval[k.skey], id).SettledAt <= height(ctx)
-//@   modifies ghost KVhas, ghost KVval, ghost G, ghost Mod, ghost Bank, ghost It_all
+//@   modifies ghost KVhas, ghost KVval, ghost G, ghost Mod, ghost Bank, ghost It_all, ghost AcctHookCalls, ghost PayHookCalls
 //@   ensures [missing] !old(KVhas)[k.skey][aKey(id)] ==> result3 != nil
 //@   ensures [notopen] old(KVhas)[k.skey][aKey(id)] && acctOf(old(KVval)[k.skey], id).State != types.AccountOpen ==> result3 != nil
 //@   ensures [precheck] !old(KVhas)[k.skey][aKey(id)] || acctOf(old(KVval)[k.skey], id).State != types.AccountOpen ==>
@@ -392,6 +399,9 @@ package keeper
 //@   ensures [recs] result3 == nil && !result2 ==> recsOK(old(KVhas)[k.skey], old(KVval)[k.skey], KVval[k.skey], acctOf(old(KVval)[k.skey], id).Balance.Denom)
 //@   ensures [wf] result3 == nil && !result2 ==> wfAcct(KVhas[k.skey], KVval[k.skey], id)
 //@   ensures [stable] stable(old(KVhas)[k.skey], old(KVval)[k.skey], KVhas[k.skey], KVval[k.skey])
+//@   ensures [hooks] result3 == nil && result2 ==> AcctHookCalls == old(AcctHookCalls) + len(k.hooks.onAccountClosed)
+//@   ensures [phooks] result3 == nil && result2 ==> PayHookCalls == old(PayHookCalls) + len(k.hooks.onPaymentClosed) * len(result1)
+//@   ensures [nohooks] result3 == nil && !result2 ==> AcctHookCalls == old(AcctHookCalls) && PayHookCalls == old(PayHookCalls)
 //@   loop 2 invariant recsOK(old(KVhas)[k.skey], old(KVval)[k.skey], KVval[k.skey], acctOf(old(KVval)[k.skey], id).Balance.Denom)
 //@   loop 1 invariant 0 <= iter && iter <= len(payments) && blockRate.Amount >= 0 && (iter > 0 ==> blockRate.Amount > 0)
 //@   loop 1 invariant blockRate.Amount == sumRate(payments, iter) && blockRate.Denom == account.Balance.Denom
@@ -399,7 +409,7 @@ package keeper
 //@   loop 2 invariant stable(old(KVhas)[k.skey], old(KVval)[k.skey], KVhas[k.skey], KVval[k.skey])
 //@   loop 2 invariant KVval[k.skey][aKey(id)] == encode(account)
 //@   loop 2 invariant forall m: int :: 0 <= m && m < iter ==> KVval[k.skey][keyOf(payments[m])] == encode(payments[m])
-//@   loop 3 modifies payments[*], ghost KVhas, ghost KVval, ghost G, ghost Mod, ghost Bank, ghost It_all
+//@   loop 3 modifies payments[*], ghost KVhas, ghost KVval, ghost G, ghost Mod, ghost Bank, ghost It_all, ghost AcctHookCalls, ghost PayHookCalls
 //@   loop 3 invariant 0 <= iter && iter <= len(payments) && KVhas[k.skey][aKey(id)]
 //@   loop 3 invariant stable(old(KVhas)[k.skey], old(KVval)[k.skey], KVhas[k.skey], KVval[k.skey])
 //@   loop 3 invariant KVval[k.skey][aKey(id)] == encode(account)
@@ -408,22 +418,29 @@ package keeper
 //@                && decode(types.Payment, old(KVval)[k.skey][keyOf(payments[m])]).State == types.PaymentOpen
 //@   loop 4 invariant KVhas[k.skey][aKey(id)] && KVval[k.skey][aKey(id)] == encode(account)
 //@   loop 4 invariant stable(old(KVhas)[k.skey], old(KVval)[k.skey], KVhas[k.skey], KVval[k.skey])
+//@   loop 4 invariant 0 <= iter && iter <= len(k.hooks.onAccountClosed) && AcctHookCalls == old(AcctHookCalls) + iter && PayHookCalls == old(PayHookCalls)
 //@   loop 5 invariant KVhas[k.skey][aKey(id)] && KVval[k.skey][aKey(id)] == encode(account)
 //@   loop 5 invariant stable(old(KVhas)[k.skey], old(KVval)[k.skey], KVhas[k.skey], KVval[k.skey])
+//@   loop 5 invariant 0 <= iter && iter <= len(k.hooks.onPaymentClosed) && AcctHookCalls == old(AcctHookCalls) + len(k.hooks.onAccountClosed)
+//@                && PayHookCalls == old(PayHookCalls) + iter * len(payments)
 //@   loop 6 invariant KVhas[k.skey][aKey(id)] && KVval[k.skey][aKey(id)] == encode(account)
 //@   loop 6 invariant stable(old(KVhas)[k.skey], old(KVval)[k.skey], KVhas[k.skey], KVval[k.skey])
+//@   loop 6 invariant 0 <= iter && iter <= len(payments) && 1 <= iter5 && iter5 <= len(k.hooks.onPaymentClosed) && AcctHookCalls == old(AcctHookCalls) + len(k.hooks.onAccountClosed)
+//@                && PayHookCalls == old(PayHookCalls) + (iter5 - 1) * len(payments) + iter
 
 //@ func (*keeper).AccountSettle
 //@   requires k.skey == escrowSKey()
 //@   requires wfAcct(KVhas[k.skey], KVval[k.skey], id)
 //@   requires KVhas[k.skey][aKey(id)] ==> acctOf(KVval[k.skey], id).SettledAt <= height(ctx)
-//@   modifies ghost KVhas, ghost KVval, ghost G, ghost Mod, ghost Bank, ghost It_all
+//@   modifies ghost KVhas, ghost KVval, ghost G, ghost Mod, ghost Bank, ghost It_all, ghost AcctHookCalls, ghost PayHookCalls
 //@   ensures [missing] !old(KVhas)[k.skey][aKey(id)] ==> result1 != nil
 //@   ensures [notopen] old(KVhas)[k.skey][aKey(id)] && acctOf(old(KVval)[k.skey], id).State != types.AccountOpen ==> result1 != nil
 //@   ensures [precheck] !old(KVhas)[k.skey][aKey(id)] || acctOf(old(KVval)[k.skey], id).State != types.AccountOpen ==>
 //@                KVhas == old(KVhas) && KVval == old(KVval) && G == old(G) && Mod == old(Mod) && Bank == old(Bank)
 //@   ensures [od] result1 == nil && result0 ==> KVhas[k.skey][aKey(id)] && acctOf(KVval[k.skey], id).State == types.AccountOverdrawn && acctOf(KVval[k.skey], id).Balance.Amount == 0
 //@   ensures [open] result1 == nil && !result0 ==> KVhas == old(KVhas) && acctOf(KVval[k.skey], id).State == types.AccountOpen
+//@   ensures [hooks] result1 == nil && result0 ==> AcctHookCalls == old(AcctHookCalls) + len(k.hooks.onAccountClosed)
+//@   ensures [nohooks] result1 == nil && !result0 ==> AcctHookCalls == old(AcctHookCalls) && PayHookCalls == old(PayHookCalls)
 //@   ensures [wf] result1 == nil && !result0 ==> wfAcct(KVhas[k.skey], KVval[k.skey], id)
 //@                && recsOK(old(KVhas)[k.skey], old(KVval)[k.skey], KVval[k.skey], acctOf(old(KVval)[k.skey], id).Balance.Denom)
 //@   ensures [stable] stable(old(KVhas)[k.skey], old(KVval)[k.skey], KVhas[k.skey], KVval[k.skey])
@@ -435,16 +452,18 @@ package keeper
 //@   requires k.skey == escrowSKey()
 //@   requires wfAcct(KVhas[k.skey], KVval[k.skey], id)
 //@   requires KVhas[k.skey][aKey(id)] ==> acctOf(KVval[k.skey], id).SettledAt <= height(ctx)
-//@   modifies ghost KVhas, ghost KVval, ghost G, ghost Mod, ghost Bank, ghost It_all
+//@   modifies ghost KVhas, ghost KVval, ghost G, ghost Mod, ghost Bank, ghost It_all, ghost AcctHookCalls, ghost PayHookCalls
 //@   ensures [missing] !old(KVhas)[k.skey][pKey(id, pid)] ==> result != nil
 //@   ensures [notopen] old(KVhas)[k.skey][pKey(id, pid)] && payOf(old(KVval)[k.skey], id, pid).State != types.PaymentOpen ==> result != nil
 //@   ensures [precheck] !old(KVhas)[k.skey][pKey(id, pid)] || payOf(old(KVval)[k.skey], id, pid).State != types.PaymentOpen ==>
 //@                KVhas == old(KVhas) && KVval == old(KVval) && G == old(G) && Mod == old(Mod) && Bank == old(Bank)
 //@   ensures [closed] result == nil ==> (KVhas[k.skey][aKey(id)] && acctOf(KVval[k.skey], id).State == types.AccountOverdrawn)
 //@                || (KVhas[k.skey][pKey(id, pid)] && payOf(KVval[k.skey], id, pid).State == types.PaymentClosed && payOf(KVval[k.skey], id, pid).Balance.Amount == 0)
+//@   ensures [told] result == nil && !(KVhas[k.skey][aKey(id)] && acctOf(KVval[k.skey], id).State == types.AccountOverdrawn) ==> PayHookCalls == old(PayHookCalls) + len(k.hooks.onPaymentClosed)
 //@   ensures [stable] stable(old(KVhas)[k.skey], old(KVval)[k.skey], KVhas[k.skey], KVval[k.skey])
 //@   loop 1 invariant KVhas[k.skey][pKey(id, pid)] && KVval[k.skey][pKey(id, pid)] == encode(payment)
 //@   loop 1 invariant payment.State == types.PaymentClosed && payment.Balance.Amount == 0
+//@   loop 1 invariant 0 <= iter && iter <= len(k.hooks.onPaymentClosed) && PayHookCalls == atloop(PayHookCalls) + iter && AcctHookCalls == atloop(AcctHookCalls)
 //@   loop 1 invariant stable(old(KVhas)[k.skey], old(KVval)[k.skey], KVhas[k.skey], KVval[k.skey])
 
 //@ func (*keeper).PaymentWithdraw
@@ -452,7 +471,7 @@ package keeper
 //@   requires k.skey == escrowSKey()
 //@   requires wfAcct(KVhas[k.skey], KVval[k.skey], id)
 //@   requires KVhas[k.skey][aKey(id)] ==> acctOf(KVval[k.skey], id).SettledAt <= height(ctx)
-//@   modifies ghost KVhas, ghost KVval, ghost G, ghost Mod, ghost Bank, ghost It_all
+//@   modifies ghost KVhas, ghost KVval, ghost G, ghost Mod, ghost Bank, ghost It_all, ghost AcctHookCalls, ghost PayHookCalls
 //@   ensures [missing] !old(KVhas)[k.skey][pKey(id, pid)] ==> result != nil
 //@   ensures [notopen] old(KVhas)[k.skey][pKey(id, pid)] && payOf(old(KVval)[k.skey], id, pid).State != types.PaymentOpen ==> result != nil
 //@   ensures [precheck] !old(KVhas)[k.skey][pKey(id, pid)] || payOf(old(KVval)[k.skey], id, pid).State != types.PaymentOpen ==>
@@ -466,7 +485,7 @@ package keeper
 //@   requires k.skey == escrowSKey()
 //@   requires wfAcct(KVhas[k.skey], KVval[k.skey], id)
 //@   requires KVhas[k.skey][aKey(id)] ==> acctOf(KVval[k.skey], id).SettledAt <= height(ctx)
-//@   modifies ghost KVhas, ghost KVval, ghost G, ghost Mod, ghost Bank, ghost It_all
+//@   modifies ghost KVhas, ghost KVval, ghost G, ghost Mod, ghost Bank, ghost It_all, ghost AcctHookCalls, ghost PayHookCalls
 //@   ensures [missing] !old(KVhas)[k.skey][aKey(id)] ==> result != nil
 //@   ensures [notopen] old(KVhas)[k.skey][aKey(id)] && acctOf(old(KVval)[k.skey], id).State != types.AccountOpen ==> result != nil
 //@   ensures [dup] old(KVhas)[k.skey][pKey(id, pid)] ==> result != nil
@@ -486,15 +505,17 @@ package keeper
 //@   requires k.skey == escrowSKey()
 //@   requires wfAcct(KVhas[k.skey], KVval[k.skey], id)
 //@   requires KVhas[k.skey][aKey(id)] ==> acctOf(KVval[k.skey], id).SettledAt <= height(ctx)
-//@   modifies ghost KVhas, ghost KVval, ghost G, ghost Mod, ghost Bank, ghost It_all
+//@   modifies ghost KVhas, ghost KVval, ghost G, ghost Mod, ghost Bank, ghost It_all, ghost AcctHookCalls, ghost PayHookCalls
 //@   ensures [missing] !old(KVhas)[k.skey][aKey(id)] ==> result != nil
 //@   ensures [notopen] old(KVhas)[k.skey][aKey(id)] && acctOf(old(KVval)[k.skey], id).State != types.AccountOpen ==> result != nil
 //@   ensures [precheck] !old(KVhas)[k.skey][aKey(id)] || acctOf(old(KVval)[k.skey], id).State != types.AccountOpen ==>
 //@                KVhas == old(KVhas) && KVval == old(KVval) && G == old(G) && Mod == old(Mod) && Bank == old(Bank)
 //@   ensures [closed] result == nil ==> KVhas[k.skey][aKey(id)] && acctOf(KVval[k.skey], id).State != types.AccountOpen && acctOf(KVval[k.skey], id).Balance.Amount == 0
+//@   ensures [told] result == nil ==> AcctHookCalls == old(AcctHookCalls) + len(k.hooks.onAccountClosed)
 //@   ensures [stable] stable(old(KVhas)[k.skey], old(KVval)[k.skey], KVhas[k.skey], KVval[k.skey])
 //@   loop 1 invariant 0 <= iter && iter <= len(payments) && KVhas[k.skey][aKey(id)] && KVval[k.skey][aKey(id)] == encode(account)
 //@   loop 1 invariant stable(old(KVhas)[k.skey], old(KVval)[k.skey], KVhas[k.skey], KVval[k.skey])
+//@   loop 1 invariant AcctHookCalls == old(AcctHookCalls)
 //@   loop 1 invariant forall m: int :: iter <= m && m < len(payments) ==> payments[m].State == types.PaymentOpen && payments[m].AccountID == id
 //@                && storedAs(KVhas[k.skey], KVval[k.skey], payments[m])
 //@   loop 1 invariant forall m1: int, m2: int :: 0 <= m1 && m1 < m2 && m2 < len(payments) ==> keyOf(payments[m1]) != keyOf(payments[m2])
@@ -502,10 +523,13 @@ package keeper
 //@   loop 1 modifies payments[*], ghost KVhas, ghost KVval, ghost G, ghost Mod, ghost Bank
 //@   loop 2 invariant KVhas[k.skey][aKey(id)] && KVval[k.skey][aKey(id)] == encode(account)
 //@   loop 2 invariant stable(old(KVhas)[k.skey], old(KVval)[k.skey], KVhas[k.skey], KVval[k.skey])
+//@   loop 2 invariant 0 <= iter && iter <= len(k.hooks.onAccountClosed) && AcctHookCalls == old(AcctHookCalls) + iter
 //@   loop 3 invariant KVhas[k.skey][aKey(id)] && KVval[k.skey][aKey(id)] == encode(account)
 //@   loop 3 invariant stable(old(KVhas)[k.skey], old(KVval)[k.skey], KVhas[k.skey], KVval[k.skey])
+//@   loop 3 invariant AcctHookCalls == old(AcctHookCalls) + len(k.hooks.onAccountClosed)
 //@   loop 4 invariant KVhas[k.skey][aKey(id)] && KVval[k.skey][aKey(id)] == encode(account)
 //@   loop 4 invariant stable(old(KVhas)[k.skey], old(KVval)[k.skey], KVhas[k.skey], KVval[k.skey])
+//@   loop 4 invariant AcctHookCalls == old(AcctHookCalls) + len(k.hooks.onAccountClosed)
 
 //@ func (*keeper).AccountCreate
 //@   requires k.skey == escrowSKey() && validDenom(deposit.Denom)
